@@ -183,7 +183,10 @@ def f5(ctx, rep):
     sc = ctx.fnx('store_config', file='cli/src/config.rs')
     rep.check(any(c.get('f') == 'toml::from_str' for c in lc['calls']), 'F5', 'load:toml', 'toml::from_str::<Config>', 'load_config does not parse the file as TOML into Config', {'file': lc['file'], 'line': lc['line']})
     rep.check(any(c.get('f') in ('toml::to_string_pretty', 'toml::to_string') for c in sc['calls']), 'F5', 'store:toml', 'toml::to_string_pretty(config)', 'store_config does not serialise Config as TOML', {'file': sc['file'], 'line': sc['line']})
-    rep.check('Config::default' in vt.show(lc['tail']) or any('Config::default' in vt.show(r.get('v')) for r in lc['returns']) or any(c.get('f') == 'Config::default' for c in lc['calls']), 'F5', 'load:default-when-absent', 'no file ⇒ Config::default()', 'load_config does not fall back to Config::default() when no file is found', {'file': lc['file'], 'line': lc['line']})
+    # `Config::default()` spelled out, or the Option<Config> of "a file was located" unwrapped with its Default
+    defaulted = 'Config::default' in vt.show(lc['tail']) or any('Config::default' in vt.show(r.get('v')) for r in lc['returns']) or any(c.get('f') == 'Config::default' for c in lc['calls']) \
+        or any(c.get('f') == 'unwrap_or_default' for c in lc['calls']) or 'unwrap_or_default' in vt.show(lc['tail']).replace(' ', '')
+    rep.check(defaulted, 'F5', 'load:default-when-absent', 'no file ⇒ Config::default()', 'load_config does not fall back to Config::default() when no file is found', {'file': lc['file'], 'line': lc['line']})
 
 
 def f6(ctx, rep):
